@@ -28,5 +28,8 @@ for pid in ids:
                    "(a different clause of the property, a different file or function, a different mechanism — e.g. if the earlier one removed a check, "
                    "yours could mis-route data, reuse state, change an ordering, alter a boundary, confuse two similar fields, or introduce an interaction between two sites):\n")
         for s in earlier: prompt += f"  - {s}\n"
+    extra = f'/verif/tools/agents/SEED_EXTRA_{suffix}.txt'
+    if os.path.exists(extra):
+        prompt += open(extra).read()
     open(base + '/prompt.txt', 'w').write(prompt)
     print(base)
